@@ -5,10 +5,17 @@ import Cactus.Lemmas.PayAsYouGo
 # C14 — objects without recorded adoptions pay no tracing cost
 
 Dropping or cloning a handle to an object whose bookkeeping is empty performs no reachability
-trace.  In the model a trace is visible as a `traced` event and nowhere else; "no heap
-allocation" on the real allocator is observed by the harness (channel T / oracle O14), not proved.
-First the one-step lemmas, then the statements about whole histories
-(`Cactus.Lemmas.PayAsYouGo.*`).
+trace.  In the model a trace is visible as a `traced` event and nowhere else.  What is proved here:
+* one-step lemmas: `C14_drop_no_trace`, `C14_clone_no_trace`, `C14_unadopt_all_empty`,
+  `C14_every_trace_has_a_cause`, `C14_trace_only_from_rcDrop`, `C14_actions_never_trace`,
+  `C14_operations_never_trace`;
+* whole histories (`Cactus.Lemmas.PayAsYouGo.*`): `C14_every_logged_trace_has_a_cause`; per object
+  `C14_untouched_objects_have_empty_tables`, `C14_only_touched_objects_root_a_trace` (and the
+  every-state versions); never-adopting programs `C14_program_without_adoptions_never_traces`,
+  `C14_program_without_adoptions_has_empty_tables`, `C14_noAdopt_every_state`;
+* examples: a 22-operation never-adopting history and an adopting history with a bystander.
+Not proved: "no heap allocation" on the real allocator is observed by the harness (channel T /
+oracle O14).
 -/
 namespace Cactus
 open State
@@ -79,28 +86,148 @@ example : (({ heap := [{ strong := .cnt 2, weak := 1, links := some [], value :=
   (a `link` two-cycle is traced and collected while a bystander object is cloned and dropped: no
   trace is rooted at the bystander). -/
 
-theorem C14_every_trace_has_a_cause : type_of% @trace_has_cause_step := @trace_has_cause_step
-theorem C14_trace_only_from_rcDrop : type_of% @step_log_cases := @step_log_cases
-theorem C14_actions_never_trace : type_of% @trace_has_cause_applyAct := @trace_has_cause_applyAct
-theorem C14_operations_never_trace : type_of% @trace_has_cause_applyOp := @trace_has_cause_applyOp
-theorem C14_every_logged_trace_has_a_cause : type_of% @reachable_trace_has_cause :=
-  @reachable_trace_has_cause
-theorem C14_untouched_objects_have_empty_tables : type_of% @run_untouched_tables_empty :=
-  @run_untouched_tables_empty
-theorem C14_only_touched_objects_root_a_trace : type_of% @run_trace_root_touched :=
-  @run_trace_root_touched
-theorem C14_untouched_every_state : type_of% @ReachableT.untouched_untabled :=
-  @ReachableT.untouched_untabled
-theorem C14_traced_touched_every_state : type_of% @ReachableT.traced_touched :=
-  @ReachableT.traced_touched
-theorem C14_program_without_adoptions_never_traces : type_of% @run_noAdopt_no_trace :=
-  @run_noAdopt_no_trace
-theorem C14_program_without_adoptions_has_empty_tables : type_of% @run_noAdopt_tables_empty :=
-  @run_noAdopt_tables_empty
-theorem C14_noAdopt_every_state : type_of% @ReachableN.invariant := @ReachableN.invariant
-theorem C14_example_no_adoptions : type_of% @PayAsYouGoExample.hN_no_trace :=
-  @PayAsYouGoExample.hN_no_trace
-theorem C14_example_bystander : type_of% @PayAsYouGoExample.hA_bystander :=
-  @PayAsYouGoExample.hA_bystander
+/-- **every trace has a cause** (no hypothesis on `s`): the log of `step s` is the log of `s`
+followed by new events, and every `traced o _ _` among them is rooted at an object `o` whose link
+table was non-empty in `s` -/
+theorem C14_every_trace_has_a_cause (s : State) :
+    ∃ new, (step s).log = s.log ++ new ∧
+      ∀ o v p, Ev.traced o v p ∈ new →
+        ∃ ob t, s.cell o = some ob ∧ ob.links = some t ∧ t ≠ [] :=
+  trace_has_cause_step s
+
+/-- one machine step either appends no `traced` event (`NoTraceExt s s'`: `s'.log = s.log ++ new`
+with no `traced` event in `new`), or it is the step of a frame `rcDrop o` that appends exactly
+`traced o _ _`, and the table of `o` was readable and non-empty before the step (`s.Tabled o`) -/
+theorem C14_trace_only_from_rcDrop (s : State) :
+    NoTraceExt s (step s) ∨
+      ∃ o v p rest, s.err = none ∧ s.stack = .rcDrop o :: rest ∧
+        (step s).log = s.log ++ [Ev.traced o v p] ∧ s.Tabled o :=
+  step_log_cases s
+
+/-- a user-level action (top level or inside a destructor) appends no `traced` event by itself -/
+theorem C14_actions_never_trace (s : State) (fh fw : List Nat) (a : Act) :
+    ∃ new, (applyAct s fh fw a).log = s.log ++ new ∧ ∀ o v p, Ev.traced o v p ∉ new :=
+  trace_has_cause_applyAct s fh fw a
+
+/-- the same for a top-level operation -/
+theorem C14_operations_never_trace (s : State) (op : Op) :
+    ∃ new, (applyOp s op).log = s.log ++ new ∧ ∀ o v p, Ev.traced o v p ∉ new :=
+  trace_has_cause_applyOp s op
+
+/-- whole-log form: in every reachable state `s`, for every position `i` of the log holding an
+event `traced o v p` there is a reachable state `s0`, without error and with a frame `rcDrop o` on
+top of its stack, whose log is the log of `s` before position `i`, whose machine step appended
+exactly that event, and in which the link table of `o` was non-empty -/
+theorem C14_every_logged_trace_has_a_cause {s : State} (h : Reachable s) :
+    ∀ i o v p, s.log[i]? = some (Ev.traced o v p) →
+      ∃ s0, Reachable s0 ∧ s0.err = none ∧ (∃ rest, s0.stack = Frame.rcDrop o :: rest) ∧
+        s0.log = s.log.take i ∧ (step s0).log = s.log.take (i + 1) ∧
+        (step s0).log = s0.log ++ [Ev.traced o v p] ∧
+        ∃ ob t, s0.cell o = some ob ∧ ob.links = some t ∧ t ≠ [] :=
+  reachable_trace_has_cause h
+
+/-- per object, tables: an object never designated by an `adopt`/`link` of the history (top level
+or destructor script; `touched ops` is that ghost list) ends with an empty or moved-out table,
+whatever adoptions the history performs on other objects -/
+theorem C14_untouched_objects_have_empty_tables (ops : List (Op × List Nat)) :
+    ∀ o, o ∉ touched ops → ∀ ob, (run ops).heap[o]? = some ob →
+      ob.links = some [] ∨ ob.links = none :=
+  run_untouched_tables_empty ops
+
+/-- per object, traces: every trace of the history is rooted at an object designated by one of its
+recorded adoptions -/
+theorem C14_only_touched_objects_root_a_trace (ops : List (Op × List Nat)) :
+    ∀ o v p, Ev.traced o v p ∈ (run ops).log → o ∈ touched ops :=
+  run_trace_root_touched ops
+
+/-- the same in every state of every history, mid-teardown included (`ReachableT T s`: `Reachable s`
+together with the ghost list `T` of the objects designated so far by a recorded adoption) -/
+theorem C14_untouched_every_state {T : List Nat} {s : State} (h : ReachableT T s) :
+    ∀ o, o ∉ T → ∀ ob, s.heap[o]? = some ob → ob.links = some [] ∨ ob.links = none :=
+  h.untouched_untabled
+
+theorem C14_traced_touched_every_state {T : List Nat} {s : State} (h : ReachableT T s) :
+    ∀ o v p, Ev.traced o v p ∈ s.log → o ∈ T :=
+  h.traced_touched
+
+/-- a history none of whose operations (incl. installed destructor scripts) is `adopt`/`link`
+never runs a trace -/
+theorem C14_program_without_adoptions_never_traces (ops : List (Op × List Nat))
+    (h : ∀ oh ∈ ops, oh.1.noAdopt) :
+    ∀ e ∈ (run ops).log, ∀ o v p, e ≠ Ev.traced o v p :=
+  run_noAdopt_no_trace ops h
+
+/-- … and all its link tables stay empty (or moved out) -/
+theorem C14_program_without_adoptions_has_empty_tables (ops : List (Op × List Nat))
+    (h : ∀ oh ∈ ops, oh.1.noAdopt) :
+    ∀ (o : Nat) (ob : Obj), (run ops).heap[o]? = some ob → ob.links = some [] ∨ ob.links = none :=
+  run_noAdopt_tables_empty ops h
+
+/-- the same in every intermediate state of such a history (`ReachableN`), together with: every
+destructor script anywhere in the state is `noAdopt` -/
+theorem C14_noAdopt_every_state {s : State} (h : ReachableN s) :
+    (∀ (o : Nat) (ob : Obj), s.heap[o]? = some ob → ob.links = some [] ∨ ob.links = none) ∧
+    s.ScriptsQ Act.noAdopt ∧ (∀ e ∈ s.log, e.isTraced = false) :=
+  h.invariant
+
+
+/-! ## Non-vacuity (`Cactus.Lemmas.PayAsYouGo.Example`) -/
+
+/-- the never-adopting history `hN`, written out: 22 operations over 5 objects -/
+example : PayAsYouGoExample.hN =
+    [(.act .new, []), (.act .new, []), (.act .new, []),       -- objects 0, 1, 2; handles [0, 1, 2]
+     (.setScript 1 [.upgradeField 0, .cloneField 0, .drop 0], []),  -- destructor of object 1's value
+     (.act (.downgrade 2), []), (.act (.downgrade 0), []),    -- Weak handles [2, 0]
+     (.act (.storeWeak 1 1), []),                             -- object 1 holds a Weak to object 0
+     (.act (.store 2 1), []),                                 -- object 1 holds the handle to object 2
+     (.act (.store 1 0), []),                                 -- object 0 holds the handle to 1: 0 → 1 → 2
+     (.act (.clone 0), []), (.act (.counts 0), []),           -- second handle to object 0
+     (.act (.drop 0), []),                                    -- drop one of them: no cascade
+     (.act (.upgrade 0), []), (.act (.drop 1), []),           -- upgrade the Weak to 2, drop the result
+     (.act .new, []), (.act (.clone 1), []), (.act (.makeMut 1), []),  -- object 3 shared: make_mut clones
+     (.act (.tryUnwrap 2), []), (.act (.dropValue 0), []),    -- unwrap object 3, drop the value
+     (.act (.drop 1), []),                                    -- drop object 4
+     (.act (.drop 0), []),                                    -- last handle to 0: cascade 0, 1, 2
+     (.act (.dropWeak 0), [])] := rfl                         -- last Weak to 2: allocation released
+
+/-- the hypothesis of `C14_program_without_adoptions_never_traces` holds for it, it ends without
+error, everything is destroyed and released … -/
+example : (∀ oh ∈ PayAsYouGoExample.hN, oh.1.noAdopt) ∧ (run PayAsYouGoExample.hN).err = none
+    ∧ (run PayAsYouGoExample.hN).heap.length = 5
+    ∧ (run PayAsYouGoExample.hN).heap.all (·.freed) = true
+    ∧ (run PayAsYouGoExample.hN).log =
+      [.ret 2, .ret 1, .ret 1, .ret 2, .freed 3, .ret 1, .destroyed 3, .destroyed 4, .freed 4,
+       .destroyed 0, .destroyed 1, .ret 0, .destroyed 2, .freed 1, .freed 0, .freed 2] :=
+  ⟨PayAsYouGoExample.hN_noAdopt, PayAsYouGoExample.hN_noErr, PayAsYouGoExample.hN_all_released.1,
+   PayAsYouGoExample.hN_all_released.2.1, PayAsYouGoExample.hN_log⟩
+
+/-- … and, by the theorem, its log contains no `traced` event -/
+theorem C14_example_no_adoptions :
+    ∀ e ∈ (run PayAsYouGoExample.hN).log, ∀ o v p, e ≠ Ev.traced o v p :=
+  C14_program_without_adoptions_never_traces PayAsYouGoExample.hN PayAsYouGoExample.hN_noAdopt
+
+/-- the adopting history `hA` with a bystander, written out -/
+example : PayAsYouGoExample.hA =
+    [(.act .new, []), (.act .new, []),                        -- objects 0, 1
+     (.act (.clone 0), []), (.act (.link 2 1), []),           -- 1 → 0 (adopt(1, 0))
+     (.act (.clone 1), []), (.act (.link 2 0), []),           -- 0 → 1 (adopt(0, 1)): a two-cycle
+     (.act .new, []), (.act (.clone 2), []), (.act (.drop 3), []),  -- bystander 2, cloned, clone dropped
+     (.act (.drop 0), []),                                    -- handle to 0: traces, cycle still owned
+     (.act (.drop 0), []),                                    -- handle to 1: traces, cycle collected
+     (.act (.drop 0), [])] := rfl                             -- bystander dropped: no trace
+
+/-- the objects designated by its adoptions, and the traces it runs (by evaluation) -/
+example : touched PayAsYouGoExample.hA = [1, 0, 0, 1]
+    ∧ (run PayAsYouGoExample.hA).log.filter Ev.isTraced = [.traced 0 2 3, .traced 1 2 3] :=
+  ⟨PayAsYouGoExample.hA_touched, PayAsYouGoExample.hA_traces⟩
+
+/-- the per-object theorems applied to the bystander (object 2, not in `touched hA`): its table is
+empty and no trace is rooted at it -/
+theorem C14_example_bystander :
+    (∀ ob, (run PayAsYouGoExample.hA).heap[2]? = some ob → ob.links = some [] ∨ ob.links = none) ∧
+      ∀ v p, Ev.traced 2 v p ∉ (run PayAsYouGoExample.hA).log := by
+  have h2 : 2 ∉ touched PayAsYouGoExample.hA := by rw [PayAsYouGoExample.hA_touched]; decide
+  exact ⟨C14_untouched_objects_have_empty_tables PayAsYouGoExample.hA 2 h2,
+    fun v p hm => h2 (C14_only_touched_objects_root_a_trace PayAsYouGoExample.hA 2 v p hm)⟩
 
 end Cactus
